@@ -163,6 +163,13 @@ func init() {
 		}
 		return VInt{e.fresh(sprintf("clock_%d", e.nondet), 64)}
 	}
+	intrinsics["(time.Time).Add"] = func(e *Exec, a []Value) Value { return zero(timeType) }
+	intrinsics["(time.Time).Sub"] = clock
+	intrinsics["(time.Time).Before"] = func(e *Exec, a []Value) Value {
+		e.nondet++
+		return VBool{e.fresh(sprintf("time_before_%d", e.nondet), SBool)}
+	}
+	intrinsics["(time.Time).After"] = intrinsics["(time.Time).Before"]
 	intrinsics["(time.Time).UnixNano"] = clock
 	intrinsics["(time.Time).Unix"] = clock
 	intrinsics["(time.Time).UnixMilli"] = clock
